@@ -137,6 +137,10 @@ Sites == <<
   S("heartbeat_type_after_reset", "hist_parse_record", Hist("reset"), <<24, 3, 3, 0, 4>>, 1, <<0, 1, 7>>, "0.hbt"),
   S("alert_level_after_hs", "hist_parse_record", Hist("hs"), <<21, 3, 1, 0, 2>>, 1, <<0>>, "0.sev"),
   S("alert_level_after_app", "hist_parse_record", Hist("app"), <<21, 3, 3, 0, 4, 1, 0>>, 1, <<90>>, "1.sev"),
+  S("alert_level_after_refused_handshake", "hist_parse_record", Hist("badhs"), <<21, 3, 3, 0, 2>>, 1, <<40>>, "0.sev"),
+  S("client_hello_cipher_after_refused_type", "hist_parse_record", Hist("badct"), <<22, 3, 3>> \o BE16(4 + Len(ChPre) + 8) \o <<1>> \o BE24(Len(ChPre) + 8) \o ChPre \o <<0, 4, 0, 47>>, 2, <<1, 0>>, "0.m.ciphers.1"),
+  S("heartbeat_type_after_refused_hello", "hist_parse_record", Hist("defrag+badhs"), <<24, 3, 3, 0, 4>>, 1, <<0, 1, 7>>, "0.hbt"),
+  S("server_hello_compression_after_refused_handshake", "hist_parse_record", Hist("badhs"), <<22, 3, 3>> \o BE16(42) \o <<2, 0, 0, 38, 3, 3>> \o R32 \o <<0, 0, 47>>, 1, <<>>, "0.m.comp"),
   (* ... and when the message arrives in several records (cuts after a.len and a.len + a.ct payload bytes) *)
   S("heartbeat_type_split_3_1", "split_parse_record", Cut(3, 1), <<24, 3, 3, 0, 7>>, 1, <<0, 4, 1, 2, 3, 4>>, "0.hbt"),
   S("heartbeat_type_split_1_2", "split_parse_record", Cut(1, 2), <<24, 3, 3, 0, 23>>, 1, <<0, 4, 1, 2, 3, 4>> \o Fill(1, 16), "0.hbt"),
@@ -169,14 +173,14 @@ Acc(site, v) ==
     [] site = "alert_level" -> v.sev [] site = "alert_description" -> v.code
     [] site = "alert_level_stateful_two_alerts" -> v[1].sev [] site = "alert_level_stateful_second_alert" -> v[2].sev
     [] site = "alert_description_stateful" -> v[1].code [] site = "heartbeat_type_stateful" -> v[1].hbt
-    [] site \in {"alert_level_after_ccs", "alert_level_after_hs"} -> v[1].sev
+    [] site \in {"alert_level_after_ccs", "alert_level_after_hs", "alert_level_after_refused_handshake"} -> v[1].sev
     [] site = "alert_level_after_app" -> v[2].sev
     [] site \in {"alert_description_after_ccs_app"} -> v[1].code
-    [] site \in {"client_hello_cipher_after_ccs", "client_hello_cipher_split_header", "client_hello_cipher_split_inside_field"} -> v[1].m.ciphers[2]
+    [] site \in {"client_hello_cipher_after_ccs", "client_hello_cipher_split_header", "client_hello_cipher_split_inside_field", "client_hello_cipher_after_refused_type"} -> v[1].m.ciphers[2]
     [] site = "client_hello_compression_after_alert" -> v[1].m.comp[2]
     [] site = "server_hello_cipher_after_defrag" -> v[1].m.cipher
-    [] site = "server_hello_compression_split" -> v[1].m.comp
-    [] site \in {"heartbeat_type_after_reset", "heartbeat_type_split_3_1", "heartbeat_type_split_1_2", "heartbeat_type_split_4_2"} -> v[1].hbt
+    [] site \in {"server_hello_compression_split", "server_hello_compression_after_refused_handshake"} -> v[1].m.comp
+    [] site \in {"heartbeat_type_after_reset", "heartbeat_type_after_refused_hello", "heartbeat_type_split_3_1", "heartbeat_type_split_1_2", "heartbeat_type_split_4_2"} -> v[1].hbt
     [] site \in {"status_type_server", "status_type_client"} -> v.req[1].st
     [] site = "sni_name_type_client" -> v.names[1].nt [] site = "named_group_client" -> v.groups[2]
     [] site = "signature_scheme_client" -> v.algs[1] [] site = "psk_mode_client" -> v.modes[2]
